@@ -6,7 +6,7 @@ From Coq Require Import ZArith Bool List String Lia Permutation Sorted.
 From TV Require Import spec.Num spec.PyBase spec.PyLib model.GraphsIter.
 From TV Require Import gen.IRAst gen.Names gen.ExhaustAst gen.Exhaust gen.IterGraphs gen.GlueGen.
 From TV Require Import gen.AppendGen gen.GenerateIR.
-From TV Require proofs.Certs proofs.GenAppend_decl proofs.GenAppend_equiv.
+From TV Require proofs.Certs proofs.GenAppend_decl proofs.GenAppend_equiv proofs.Certs3Defs proofs.Certs2Input.
 Import ListNotations.
 Open Scope bool_scope.
 
@@ -887,3 +887,365 @@ Proof. unfold generate_ir. cbn [conv_kernel_type]. apply gen_compute_aligned_fue
 (** [Sub] is not vacuous: it relates only statements of the same shape (or an empty block on the right) *)
 Example sub_not_everything : ~ Sub (Return (IntegerLiteral 0)) (Return (IntegerLiteral 1)).
 Proof. intros H. inversion H. Qed.
+
+(** * 8. every atom the generator emits is an Assignment, a DeclarationAssignment (Declaration ...) or a Return
+      (what Certs3Defs.atom_same needs of a kept statement) -- all kernel kinds *)
+
+Fixpoint wfS (s : stmt) : bool :=
+  match s with
+  | Assignment _ _ => true
+  | DeclarationAssignment (Declaration _ _) _ => true
+  | Return _ => true
+  | Block l _ => forallb wfS l
+  | Branch _ a b => wfS a && wfS b
+  | Loop _ a => wfS a
+  | _ => false
+  end.
+
+Class GoodW (T : Type) := goodw : T -> Prop.
+#[export] Instance goodw_sb : GoodW sb := fun b => forallb wfS (sb_lines b) = true.
+#[export] Instance goodw_stmt : GoodW stmt := fun s => wfS s = true.
+#[export] Instance goodw_list {T} `{GoodW T} : GoodW (list T) := fun l => Forall goodw l.
+#[export] Instance goodw_prod {A B} `{GoodW A} `{GoodW B} : GoodW (A * B) := fun p => goodw (fst p) /\ goodw (snd p).
+#[export] Instance goodw_option {T} `{GoodW T} : GoodW (option T) := fun o => match o with Some x => goodw x | None => True end.
+#[export] Instance goodw_default {T} : GoodW T | 100 := fun _ => True.
+
+Lemma wp_bind_goodw {A B} `{GoodW A} (x : option A) (f : A -> option B) (Q : B -> Prop) :
+  wp x goodw -> (forall v, goodw v -> wp (f v) Q) -> wp (obind x f) Q.
+Proof. apply wp_bind. Qed.
+Lemma wp_of_goodw {T} `{GoodW T} (o : option T) : goodw o -> wp o goodw.
+Proof. intros Ho r E. subst o. exact Ho. Qed.
+
+Lemma gw_nil c : goodw (MkSB [] c). Proof. reflexivity. Qed.
+Lemma gw_append_stmt (s : sb) x : goodw s -> wfS x = true -> goodw (sb_append_stmt s x).
+Proof. unfold goodw, goodw_sb, sb_append_stmt. cbn. intros H Hx. rewrite forallb_app, H. cbn. rewrite Hx. reflexivity. Qed.
+Lemma gw_finalize (s : sb) : goodw s -> wfS (sb_finalize s) = true.
+Proof. intros H. exact H. Qed.
+Lemma gw_append_sb (s x : sb) : goodw s -> goodw x -> goodw (sb_append_sb s x).
+Proof.
+  unfold sb_append_sb. intros Hs Hx. destruct (sb_comment x).
+  - apply (gw_append_stmt s _ Hs). exact Hx.
+  - unfold goodw, goodw_sb in *. cbn. rewrite forallb_app, Hs, Hx. reflexivity.
+Qed.
+Lemma gw_close_branch (o : sb) c (i : sb) : goodw o -> goodw i -> goodw (sb_close_branch o c i).
+Proof. intros Ho Hi. apply gw_append_stmt; auto. cbn. unfold goodw, goodw_sb in Hi. rewrite Hi. reflexivity. Qed.
+Lemma gw_close_loop (o : sb) c (i : sb) : goodw o -> goodw i -> goodw (sb_close_loop o c i).
+Proof. intros Ho Hi. apply gw_append_stmt; auto. Qed.
+Lemma gw_close_block (o : sb) c (i : sb) : goodw o -> goodw i -> goodw (sb_close_block o c i).
+Proof. intros Ho Hi. apply gw_append_stmt; auto. Qed.
+
+Lemma wfS_branch_join (l : list (expr * stmt)) :
+  goodw l -> wfS (Branch_join (map (fun '(c0_, c1_) => (XE c0_, c1_)) l)) = true.
+Proof.
+  intros Hl. unfold Branch_join. rewrite <- map_rev.
+  assert (Hr : Forall goodw (rev l)) by (apply Forall_rev; exact Hl).
+  revert Hr. generalize (rev l) as xs. intros xs Hxs.
+  assert (G : forall acc, wfS acc = true ->
+              wfS (fold_left (fun previous (leaf : exarg * stmt) =>
+                                Branch (to_expression (let '(p_, _) := leaf in p_)) (let '(_, p_) := leaf in p_) previous)
+                             (map (fun '(c0_, c1_) => (XE c0_, c1_)) xs) acc) = true).
+  { induction Hxs as [|[c b] xs [_ Hb] Hxs IH]; intros acc Ha; cbn [map fold_left]; auto.
+    apply IH. cbn [fst snd] in Hb. unfold goodw, goodw_stmt in Hb. cbn [wfS]. rewrite Hb, Ha. reflexivity. }
+  apply G. reflexivity.
+Qed.
+
+Ltac gw_stmt := unfold goodw, goodw_stmt in *; first [ reflexivity | assumption | apply wfS_branch_join; assumption | idtac ].
+
+Ltac gw_solve :=
+  cbn [fst snd] in *;
+  lazymatch goal with
+  | |- goodw (sb_append_stmt _ _) => apply gw_append_stmt; [gw_solve | gw_stmt]
+  | |- goodw (sb_append_sb _ _) => apply gw_append_sb; gw_solve
+  | |- goodw (sb_close_branch _ _ _) => apply gw_close_branch; gw_solve
+  | |- goodw (sb_close_loop _ _ _) => apply gw_close_loop; gw_solve
+  | |- goodw (sb_close_block _ _ _) => apply gw_close_block; gw_solve
+  | |- goodw (MkSB [] _) => reflexivity
+  | |- goodw (write_sparse_initialization _) => reflexivity
+  | |- goodw (write_pos_assembly _) => reflexivity
+  | |- goodw (_, _) => split; gw_solve
+  | |- goodw_prod (_, _) => split; gw_solve
+  | |- goodw (Some _) => unfold goodw, goodw_option; gw_solve
+  | |- goodw (@None _) => exact I
+  | |- @goodw (list _) _ (_ ++ [_])%list => apply Forall_app; split; [assumption | constructor; [gw_solve | constructor]]
+  | |- @goodw (list _) _ [] => constructor
+  | |- @goodw (list _) _ _ => first [assumption | solve [apply Forall_forall; intros ? _; gw_solve] | idtac]
+  | |- @goodw stmt _ (sb_finalize _) => apply gw_finalize; gw_solve
+  | |- @goodw stmt _ _ => gw_stmt
+  | |- _ => first [ assumption | exact I | solve [repeat split; exact I]
+                  | solve [unfold goodw, goodw_option, goodw_prod, goodw_default;
+                           repeat match goal with |- context [match ?x with _ => _ end] => destruct x end;
+                           repeat split; exact I]
+                  | idtac ]
+  end.
+
+Ltac destruct_gw :=
+  repeat match goal with
+         | H : @goodw (_ * _) _ _ |- _ => destruct H
+         | H : goodw_prod _ |- _ => destruct H
+         end; cbn [fst snd] in *.
+
+Create HintDb wpwdb.
+
+Ltac ww_go :=
+  cbv beta;
+  lazymatch goal with
+  | |- wp (Some _) _ => apply wp_some; ww_post
+  | |- wp None _ => apply wp_none
+  | |- wp (match ?x with Some _ => _ | None => _ end) _ => first [apply wp_if | destruct x; destruct_gw]; ww_go
+  | |- wp (if ?c then _ else _) _ => first [apply wp_if | destruct c; destruct_gw]; ww_go
+  | |- wp (let '(_, _) := ?p in _) _ => destruct p; destruct_gw; ww_go
+  | |- wp (ofold _ _ _) _ =>
+      apply wp_ofold; [ let acc := fresh "acc" in let x := fresh "x" in let Ha := fresh "Ha" in
+                        intros acc x Ha; ww_go
+                      | gw_solve ]
+  | |- wp (obind ?x ?f) _ =>
+      apply wp_bind_goodw;
+      [ first [ solve [eauto 3 with wpwdb] | ww_go ]
+      | let v := fresh "v" in let Hv := fresh "Hv" in intros v Hv; ww_go ]
+  | |- wp _ goodw => first [ solve [eauto 3 with wpwdb] | solve [apply wp_of_goodw; assumption] | solve [intros ? ?; gw_solve] | idtac ]
+  | |- _ => idtac
+  end
+with ww_post :=
+  lazymatch goal with
+  | |- wp _ _ => ww_go
+  | |- goodw _ => destruct_gw; gw_solve
+  | |- _ => idtac
+  end.
+
+(** leaves: what gen/AppendGen.v contributes, every kernel kind *)
+Lemma ww_crd_assembly tl : wp (write_crd_assembly tl) goodw.
+Proof. unfold write_crd_assembly. cbv zeta. ww_go. Qed.
+Lemma ww_pos_allocation tl : wp (write_pos_allocation tl) goodw.
+Proof. unfold write_pos_allocation. cbv zeta. ww_go. Qed.
+
+Lemma ww_bucket_declarations b rhs : wp (BucketOutput_write_declarations b rhs) goodw.
+Proof. unfold BucketOutput_write_declarations. cbv zeta. ww_go. Qed.
+Lemma ww_bucket_assignment b rhs k : wp (BucketOutput_write_assignment b rhs k) goodw.
+Proof. unfold BucketOutput_write_assignment. cbv zeta. ww_go. Qed.
+#[export] Hint Resolve ww_crd_assembly ww_pos_allocation ww_bucket_declarations ww_bucket_assignment : wpwdb.
+Lemma ww_next_output o io k : wp (Output_next_output o io k) goodw.
+Proof.
+  destruct o as [a|b]; cbn [Output_next_output].
+  - unfold AppendOutput_next_output. cbv zeta. ww_go.
+  - apply wp_some. unfold BucketOutput_next_output. destruct io; repeat split.
+Qed.
+Lemma ww_write_assignment o rhs k : wp (Output_write_assignment o rhs k) goodw.
+Proof.
+  destruct o as [a|b]; cbn [Output_write_assignment]; [|apply ww_bucket_assignment].
+  unfold AppendOutput_write_assignment. cbv zeta. ww_go.
+Qed.
+Lemma ww_declarations cap o k : wp (AppendOutput_write_declarations cap o k) goodw.
+Proof. unfold AppendOutput_write_declarations. cbv zeta. ww_go. Qed.
+Lemma ww_cleanup o k : wp (AppendOutput_write_cleanup o k) goodw.
+Proof. unfold AppendOutput_write_cleanup. cbv zeta. ww_go. Qed.
+#[export] Hint Resolve ww_next_output ww_write_assignment ww_declarations ww_cleanup : wpwdb.
+
+Lemma terminal_wf self o k : wp (to_ir_terminal_expression self o k) goodw.
+Proof. unfold to_ir_terminal_expression. destruct self; try solve [apply wp_none]. cbv zeta. ww_go. Qed.
+Lemma sum_wf rec_ self o k : (forall g o', wp (rec_ g o' k) goodw) -> wp (to_ir_sum rec_ self o k) goodw.
+Proof. intros IH. unfold to_ir_sum. destruct self; try solve [apply wp_none]. cbv zeta. ww_go. Qed.
+Lemma iteration_wf fuel rec_ self o k : (forall g o', wp (rec_ g o' k) goodw) -> wp (to_ir_iteration_variable fuel rec_ self o k) goodw.
+Proof. intros IH. unfold to_ir_iteration_variable. destruct self; try solve [apply wp_none]. cbv zeta. ww_go. Qed.
+Theorem family_wf fuel k n : forall g o, wp (to_ir_iteration_graph fuel n g o k) goodw.
+Proof.
+  induction n as [|n IH]; intros g o; cbn [to_ir_iteration_graph]; [apply wp_none|].
+  destruct g; [apply terminal_wf | apply iteration_wf; intros; apply IH | apply sum_wf; intros; apply IH].
+Qed.
+#[export] Hint Resolve family_wf : wpwdb.
+
+Definition fd_body (f : function_definition) : stmt := match f with FunctionDefinition _ _ _ b => b end.
+Definition fd_params (f : function_definition) : list stmt := match f with FunctionDefinition _ ps _ _ => ps end.
+
+Definition param_form (p : stmt) : bool := match p with Declaration (Var _) (TPointer TTensor) => true | _ => false end.
+
+Theorem gen_atoms_wf_fuel cap fuel d g k :
+  wp (generate_ir_fuel cap fuel d g k) (fun f => wfS (fd_body f) = true /\ forallb param_form (fd_params f) = true).
+Proof.
+  unfold generate_ir_fuel. cbv zeta. ww_go.
+  cbn [fd_body fd_params]. split.
+  - apply (gw_finalize _). gw_solve.
+  - apply forallb_forall. intros p Hp. apply in_map_iff in Hp as (n & <- & _). reflexivity.
+Qed.
+
+(** * 9. the bridge: [Sub sE sK] + well-formed atoms  =>  Certs3Defs.align with trivial side conditions succeeds *)
+Import Certs3Defs.
+
+Lemma ty_same_refl t : ty_same t t = true.
+Proof. induction t; cbn; auto. rewrite IHt, Z.eqb_refl. reflexivity. Qed.
+Lemma sf_same_refl x : sf_same x x = true.
+Proof. destruct x; cbn; rewrite ?Bool.eqb_reflx, ?Pos.eqb_refl, ?Z.eqb_refl; reflexivity. Qed.
+Lemma expr_same_refl e : expr_same e e = true.
+Proof.
+  induction e; cbn; rewrite ?IHe, ?IHe1, ?IHe2, ?IHe3, ?String.eqb_refl, ?Z.eqb_refl, ?Bool.eqb_reflx, ?sf_same_refl, ?ty_same_refl; reflexivity.
+Qed.
+
+Definition align0 : stmt -> stmt -> option unit :=
+  align unit (fun _ _ => true) (fun _ => true) (fun _ _ => Some tt) (fun _ _ => Some tt) tt.
+Definition drop0 : stmt -> option unit :=
+  drop unit (fun _ _ => true) (fun _ _ => Some tt) tt.
+
+Lemma drop0_total : forall s, drop0 s = Some tt.
+Proof.
+  unfold drop0. fix IH 1. intros s. destruct s; try reflexivity.
+  - cbn [drop]. induction statements as [|x r IHr]; [reflexivity|].
+    rewrite (IH x). exact IHr.
+  - cbn [drop]. rewrite (IH s1), (IH s2). reflexivity.
+  - cbn [drop]. rewrite (IH s). reflexivity.
+Qed.
+
+(** the list alignment inside [align] on blocks *)
+Fixpoint alL (l k : list stmt) {struct l} : option unit :=
+  match l with
+  | [] => match k with [] => Some tt | _ => None end
+  | e :: l' =>
+      orelse unit
+        (match k with
+         | [] => None
+         | k1 :: k' => match align0 e k1 with Some _ => alL l' k' | None => None end
+         end)
+        (match drop0 e with Some _ => alL l' k | None => None end)
+  end.
+
+Lemma align0_block l c k c' :
+  align0 (Block l c) (Block k c') = orelse unit (alL l k) (if is_empty_block (Block k c') then drop0 (Block l c) else None).
+Proof.
+  unfold align0 at 1. cbn [align].
+  match goal with |- orelse _ (?F l k tt) _ = _ => assert (H : forall l k, F l k tt = alL l k) end.
+  { clear. match goal with |- forall l k, ?F l k tt = _ => set (al := F) end.
+    induction l as [|e l IH]; intros k; [destruct k; reflexivity|].
+    change (al (e :: l) k tt) with
+      (orelse unit
+         (match k with
+          | [] => None
+          | k1 :: k' => match align unit (fun _ _ => true) (fun _ => true) (fun _ _ => Some tt) (fun _ _ => Some tt) tt e k1 with
+                        | Some ph' => al l k' ph' | None => None end
+          end)
+         (match drop unit (fun _ _ => true) (fun _ _ => Some tt) tt e with Some ph' => al l k ph' | None => None end)).
+    cbn [alL]. unfold align0, drop0.
+    destruct k as [|k1 k'].
+    - destruct (drop unit _ _ tt e) as [[]|]; [rewrite IH|]; reflexivity.
+    - destruct (align unit _ _ _ _ tt e k1) as [[]|]; destruct (drop unit _ _ tt e) as [[]|]; rewrite ?IH; reflexivity. }
+  rewrite H. reflexivity.
+Qed.
+
+Lemma orelse_some (b : option unit) : orelse unit (Some tt) b = Some tt. Proof. reflexivity. Qed.
+Lemma opt_unit (o : option unit) : o = Some tt \/ o = None. Proof. destruct o as [[]|]; auto. Qed.
+
+Lemma align0_refl : forall s, wfS s = true -> align0 s s = Some tt.
+Proof.
+  fix IH 1. intros s W. destruct s; try discriminate W.
+  - unfold align0. cbn. rewrite !expr_same_refl. reflexivity.
+  - destruct s; try discriminate W. unfold align0. cbn. rewrite !expr_same_refl, ty_same_refl. reflexivity.
+  - rewrite align0_block. cbn [wfS] in W.
+    assert (A : alL statements statements = Some tt).
+    { induction statements as [|x r IHr]; [reflexivity|]. cbn [forallb] in W. apply andb_true_iff in W as [Wx Wr].
+      cbn [alL]. rewrite (IH x Wx), (IHr Wr). reflexivity. }
+    rewrite A. reflexivity.
+  - cbn [wfS] in W. apply andb_true_iff in W as [W1 W2]. unfold align0. cbn [align]. rewrite expr_same_refl. cbn [andb].
+    fold (align0 s1 s1). fold (align0 s2 s2). rewrite (IH s1 W1), (IH s2 W2). reflexivity.
+  - cbn [wfS] in W. unfold align0. cbn [align]. rewrite expr_same_refl. cbn [andb].
+    fold (align0 s s). rewrite (IH s W). reflexivity.
+  - unfold align0. cbn. rewrite expr_same_refl. reflexivity.
+Qed.
+
+Scheme Sub_mind := Induction for Sub Sort Prop
+  with SubL_mind := Induction for SubL Sort Prop.
+
+Theorem sub_align0 : forall sE sK, Sub sE sK -> wfS sE = true -> align0 sE sK = Some tt.
+Proof.
+  apply (Sub_mind (fun sE sK _ => wfS sE = true -> align0 sE sK = Some tt)
+                  (fun l k _ => forallb wfS l = true -> alL l k = Some tt)).
+  - intros s W. apply align0_refl; auto.
+  - intros ss c ss' c' _ IH W. rewrite align0_block. rewrite (IH W). reflexivity.
+  - intros c a b a' b' _ IHa _ IHb W. cbn [wfS] in W. apply andb_true_iff in W as [W1 W2].
+    unfold align0. cbn [align]. rewrite expr_same_refl. cbn [andb].
+    fold (align0 a a'). fold (align0 b b'). rewrite (IHa W1), (IHb W2). reflexivity.
+  - intros c a a' _ IHa W. cbn [wfS] in W. unfold align0. cbn [align]. rewrite expr_same_refl. cbn [andb].
+    fold (align0 a a'). rewrite (IHa W). reflexivity.
+  - intros s c W. unfold align0.
+    destruct s; cbn [align is_empty_block]; fold drop0;
+      try (rewrite drop0_total; match goal with |- orelse _ ?x _ = _ => destruct (opt_unit x) as [-> | ->]; reflexivity end).
+  - intros _. reflexivity.
+  - intros e k l l' _ IHe _ IHl W. cbn [forallb] in W. apply andb_true_iff in W as [We Wl].
+    cbn [alL]. rewrite (IHe We), (IHl Wl). reflexivity.
+  - intros e l k _ IHl W. cbn [forallb] in W. apply andb_true_iff in W as [We Wl].
+    cbn [alL]. rewrite drop0_total, (IHl Wl).
+    match goal with |- orelse _ ?x _ = _ => destruct (opt_unit x) as [-> | ->]; reflexivity end.
+Qed.
+
+(** the ALIGNMENT conjunct of assemble_cert / compute_cert3, with the role / taint side conditions made trivial, plus the
+    conjuncts about parameters and return type that do not depend on roles *)
+Definition aligned0 (fe fk : function_definition) : bool :=
+  match fe, fk with
+  | FunctionDefinition _ ps rt be, FunctionDefinition _ qs rt' bk =>
+      forallb param_form ps && forallb param_form qs && same_params ps qs && ty_same rt rt'
+      && match align0 be bk with Some _ => true | None => false end
+  end.
+
+Lemma same_params_refl ps : same_params ps ps = true.
+Proof.
+  unfold same_params. rewrite Nat.eqb_refl, andb_true_r.
+  induction (Certs2Base.param_names ps) as [|x r IH]; [reflexivity|]. rewrite String.eqb_refl. exact IH.
+Qed.
+
+Lemma aligned_aligned0 fe fk :
+  aligned fe fk -> wfS (fd_body fe) = true -> forallb param_form (fd_params fe) = true -> aligned0 fe fk = true.
+Proof.
+  destruct fe as [n ps t be], fk as [n' qs t' bk]. cbn [aligned fd_body fd_params aligned0].
+  intros (<- & <- & S) W P. rewrite P, same_params_refl, ty_same_refl, (sub_align0 _ _ S W). reflexivity.
+Qed.
+
+Theorem gen_assemble_aligned0 cap d g fe fa :
+  generate_ir cap d g GlueGen.KernelType_evaluate = Some fe ->
+  generate_ir cap d g GlueGen.KernelType_assemble = Some fa -> aligned0 fe fa = true.
+Proof.
+  intros Ee Ea. pose proof (gen_assemble_aligned _ _ _ _ _ Ee Ea) as A.
+  unfold generate_ir in Ee. destruct (gen_atoms_wf_fuel _ _ _ _ _ _ Ee) as [W P]. apply aligned_aligned0; auto.
+Qed.
+
+Theorem gen_compute_aligned0 cap d g fe fc :
+  generate_ir cap d g GlueGen.KernelType_evaluate = Some fe ->
+  generate_ir cap d g GlueGen.KernelType_compute = Some fc -> aligned0 fe fc = true.
+Proof.
+  intros Ee Ec. pose proof (gen_compute_aligned _ _ _ _ _ Ee Ec) as A.
+  unfold generate_ir in Ee. destruct (gen_atoms_wf_fuel _ _ _ _ _ _ Ee) as [W P]. apply aligned_aligned0; auto.
+Qed.
+
+(** every kernel kind: the atoms *)
+Theorem gen_atoms_wf cap d g k f :
+  generate_ir cap d g k = Some f -> wfS (fd_body f) = true /\ forallb param_form (fd_params f) = true.
+Proof. unfold generate_ir. apply gen_atoms_wf_fuel. Qed.
+
+(** * 10. (b) input_safe_cert: NOT proved.  What is established: the statement "for all d, g" is FALSE as it stands --
+      a graph whose node carries an output layer of an INPUT tensor (never produced by to_iteration_graphs, whose
+      merge_assignment attaches layers of the target only; AppendOutput.next_output compares the layer NUMBER, not the tensor)
+      makes the generator re-allocate and store into that input's arrays.  The true statement needs the boolean hypothesis
+      [graph_outputs_of d g] below. *)
+Fixpoint graph_outputs_of_t (t : id_expr) (g : ig_graph) : bool :=
+  match g with
+  | IgTerminalNode _ => true
+  | IgIterationNode _ None n => graph_outputs_of_t t n
+  | IgIterationNode _ (Some (ExhaustAst.MkTensorLayer t' _)) n => id_expr_eqb t' t && graph_outputs_of_t t n
+  | IgSumNode _ ts => forallb (graph_outputs_of_t t) ts
+  end.
+Definition graph_outputs_of (d : IgDefinition) (g : ig_graph) : bool := graph_outputs_of_t (IgDefinition_output_variable d) g.
+
+Definition gen_input_safe_full : Prop := forall cap d g k f,
+  graph_outputs_of d g = true -> generate_ir cap d g k = Some f -> Certs2Input.input_safe_cert f = true.
+
+Definition ex_tb := IdTensor "1_b" "b" ["i"] [ExhaustAst.Mode_compressed].
+Definition ex_ta := IdTensor "0_a" "a" ["i"] [ExhaustAst.Mode_compressed].
+Definition ex_d := MkDefinition ex_ta [("a", MkFormat [ExhaustAst.Mode_compressed] [0%Z]); ("b", MkFormat [ExhaustAst.Mode_compressed] [0%Z])]
+                                [("i", MkTensorDimension "a" 0%Z)].
+Definition ex_g_foreign := IgIterationNode "i" (Some (ExhaustAst.MkTensorLayer ex_tb 0%Z)) (IgTerminalNode ex_tb).
+Definition ex_g := IgIterationNode "i" (Some (ExhaustAst.MkTensorLayer ex_ta 0%Z)) (IgTerminalNode ex_tb).
+
+Theorem gen_input_safe_unrestricted_fails :
+  exists f, generate_ir None ex_d ex_g_foreign GlueGen.KernelType_evaluate = Some f
+            /\ Certs2Input.input_safe_cert f = false /\ graph_outputs_of ex_d ex_g_foreign = false.
+Proof. eexists. split; [vm_compute; reflexivity|]. split; vm_compute; reflexivity. Qed.
+
+Example gen_input_safe_instance :
+  exists f, generate_ir None ex_d ex_g GlueGen.KernelType_evaluate = Some f
+            /\ Certs2Input.input_safe_cert f = true /\ graph_outputs_of ex_d ex_g = true.
+Proof. eexists. split; [vm_compute; reflexivity|]. split; vm_compute; reflexivity. Qed.
